@@ -702,7 +702,60 @@ def arg_roles_rule(ctx, rule, funcs, why):
                 ctx.check(rule, f'{site(f, c)} {ast.unparse(c.func)[:40]}', got.get(a) == a, f'{f.qual}|arg-role|{ast.unparse(c.func)[:30]}|{p_}|{a}',
                           f'{ast.unparse(c)[:90]}: the variable {a} is handed to parameter {p_}, while parameter {a} receives '
                           f'{got.get(a)}: the two roles are exchanged: {why}')
+            # one record for one call: when two or more arguments are the fields of ONE record named like the parameters they feed
+            # (band['f_min'], band['f_max']), a further parameter fed by the same-named field of ANOTHER plain record, although the
+            # first record carries that field too, mixes two records (the channel count of a band computed on another grid)
+            def field_of(e):
+                if isinstance(e, ast.Subscript) and isinstance(e.value, ast.Name) and isinstance(e.slice, ast.Constant) and isinstance(e.slice.value, str):
+                    return e.value.id, e.slice.value
+                if isinstance(e, ast.Attribute) and isinstance(e.value, ast.Name):
+                    return e.value.id, e.attr
+                return None
+            fed = {}
+            for i, a_ in enumerate(c.args):
+                if i < len(ps):
+                    fed[ps[i]] = a_
+            for k in c.keywords:
+                if k.arg:
+                    fed[k.arg] = k.value
+            own = {}
+            for p_, a_ in fed.items():
+                fo = field_of(a_)
+                if fo and fo[1] == p_:
+                    own.setdefault(fo[0], []).append(p_)
+            for rec, plist in own.items():
+                if len(plist) < 2:
+                    continue
+                for q, a_ in fed.items():
+                    fo = field_of(a_)
+                    if not fo or fo[0] == rec or fo[1] != q or q in plist:
+                        continue
+                    if _record_has(ctx.repo, rec, q):
+                        n += 1
+                        ctx.bad(rule, f'{site(f, c)} {ast.unparse(c.func)[:40]}', f'{f.qual}|arg-record|{ast.unparse(c.func)[:30]}|{q}',
+                                f'{ast.unparse(c)[:100]}: {", ".join(plist)} come from `{rec}` but {q} from `{fo[0]}`, although `{rec}` '
+                                f'carries its own {q}: two records are mixed in one computation: {why}')
     return n
+
+
+_REC = {}
+
+
+def _record_has(repo, rec, fld):
+    """somewhere in the package a variable of that name is read or written under that key / attribute"""
+    if not _REC or _REC.get('repo') is not repo:
+        _REC.clear()
+        _REC['repo'] = repo
+        acc = set()
+        for fn_ in repo.all_funcs():
+            for x in ast.walk(fn_.node):
+                if isinstance(x, ast.Subscript) and isinstance(x.value, ast.Name) and isinstance(x.slice, ast.Constant) and isinstance(x.slice.value, str):
+                    acc.add((x.value.id, x.slice.value))
+                elif isinstance(x, ast.Attribute) and isinstance(x.value, ast.Name):
+                    acc.add((x.value.id, x.attr))
+        _REC['acc'] = acc
+    # the call site itself does not count: ask for another site
+    return (rec, fld) in _REC['acc']
 
 
 def dual_stage_rule(ctx, rule, why):
